@@ -249,7 +249,7 @@ def check_case(case, ctx):
             return
     if case.get('edited'):
         with monitor.suspended():
-            case = dict(case, edits_applied=netgen.random_edits(c, rng, allow_interface=False))
+            case = dict(case, edits_applied=netgen.random_edits(c, rng))
             CUR['case'] = case
             net = refsem.net_of(c)
         ctx.count('edited_circuits')
